@@ -686,6 +686,11 @@ fn run_real_case(case_seed: u64, rep: &mut Report, verbose: bool) {
         let ang = if rng.chance(1, 5) {
             cx.rep.inc("axis_aligned_configurations");
             rng.below(4) as f64 * std::f64::consts::FRAC_PI_2
+        } else if rng.chance(1, 5) {
+            // almost, but not exactly, axis-aligned: one component of every direction of the picture is 1e-9 .. 1e-5 of
+            // the other (a shortcut for "practically axis-parallel" vectors, a normal re-unitised from its larger component)
+            cx.rep.inc("nearly_axis_aligned_configurations");
+            rng.below(4) as f64 * std::f64::consts::FRAC_PI_2 + *rng.pick(&[1e-9f64, 1e-8, 5e-8, 1e-7, 1e-6, 5e-6, 7e-6, 9e-6, 9.9e-6, 1e-5, 3e-5]) * if rng.chance(1, 2) { 1.0 } else { -1.0 }
         } else {
             rng.f64_range(0.0, std::f64::consts::TAU)
         };
